@@ -163,6 +163,9 @@ func (srv *Server) handleChannel(ctx context.Context, c *ServerChannel) {
 		if finished != nil {
 			finished(c.sessionID)
 		}
+
+		// The session is over, however it ended: the connection and the receiver are released
+		_ = c.Close()
 	}()
 
 	if err = srv.mux.ListenServer(ctx, c); err != nil {
